@@ -141,8 +141,8 @@ def ob_array():
         bad = False
         for i in range(3):
             if present[i]:
-                e1 = sym_enum(['c0', 'c1', 'c2', 'zz'], 'a%d' % i); e2 = sym_enum(['c1', 'c2', 'zz'], 'b%d' % i)
-                bad = sym_or(bad, e1 == 'zz', e2 == 'zz')
+                e1 = sym_enum(['c0', 'c1', 'c2', 'zz'], 'a%d' % i); e2 = sym_enum(['c1', 'c2', 'zz'] + ([''] if i == 2 else []), 'b%d' % i)       # '' : an EMPTY element ('c1,,c2', a trailing comma) is not a choice either
+                bad = sym_or(bad, e1 == 'zz', e2 == 'zz', e1 == '', e2 == '')
                 a, b = (e1.concretize() if hasattr(e1, 'concretize') else e1), (e2.concretize() if hasattr(e2, 'concretize') else e2)
                 vals[i] = [a, b]
                 dicts[i][k] = (a + ',' + b) if choose(2, 'comma%d' % i) else [a, b]
@@ -408,7 +408,10 @@ def ob_yield_kinds():
         if same_type:
             store.add_project_option(K('o', subproject=''), mk(pv))
         else:
-            store.add_project_option(K('o', subproject=''), O.UserStringOption('o', 'x', 'other') if kind != 2 else O.UserBooleanOption('o', 'x', True))
+            # another type - also a SUBCLASS of the child's type: a feature option is a combo option in the code, not in the build-options manual
+            other = O.UserStringOption('o', 'x', 'other') if kind != 2 else O.UserBooleanOption('o', 'x', True)
+            if kind == 4 and choose(2, 'parent is a feature option') == 1: other = O.UserFeatureOption('o', 'x', 'auto')
+            store.add_project_option(K('o', subproject=''), other)
         store.initialize_from_top_level_project_call({}, {}, {})
         store.add_project_option(K('o', subproject='sub'), mk(cv, yielding=True))
         store.initialize_from_subproject_call('sub', {}, {}, {}, {})
